@@ -90,6 +90,36 @@ def build(sc, p, fname):
         else:
             sc.cmd(pre + "addboundprop", q(d["name"]), str(d["type"]), *[n17(d.get(x, 0.0)) for x in ("Tset", "qs", "Tinf", "h", "beta")])
     for d in p.blockprops:
+        # every other material is entered with other values and then corrected value by value with xi_modifymaterial(name, propnum, value),
+        # in a shuffled order (so that a property number that also writes a neighbouring member is overwritten by - or overwrites - it)
+        build.mats = getattr(build, "mats", 0) + 1
+        if build.mats % 2 == 0:
+            fields = {"m": [("Mu_x", 1.0), ("Mu_y", 1.0), ("H_c", 0.0), ("J_re", 0.0), ("Sigma", 0.0), ("d_lam", 0.0), ("Phi_h", 0.0), ("LamFill", 1.0),
+                            ("LamType", 0), ("Phi_hx", 0.0), ("Phi_hy", 0.0), ("NStrands", 0), ("WireD", 0.0)],
+                      "e": [("ex", 1.0), ("ey", 1.0), ("qv", 0.0)], "h": [("Kx", 1.0), ("Ky", 1.0), ("qv", 0.0), ("Kt", 0.0)]}[k]
+            true_ = [d.get(f_, dflt) for (f_, dflt) in fields]
+            decoy = []
+            for (f_, dflt), v_ in zip(fields, true_):
+                if f_ == "LamType":
+                    decoy.append(0 if v_ != 0 else 1)
+                elif f_ == "NStrands":
+                    decoy.append(int(v_) + 2)
+                elif f_ == "LamFill":
+                    decoy.append(0.75 if v_ == 1.0 else 1.0)
+                else:
+                    decoy.append(v_ * 2.0 + 1.0)
+            sc.cmd(pre + "addmaterial", q(d["name"]), *[str(x) if isinstance(x, int) else n17(x) for x in decoy])
+            order_ = list(range(len(fields)))
+            sc.rng.shuffle(order_)
+            for i_ in order_:
+                sc.cmd(pre + "modifymaterial", q(d["name"]), str(i_ + 1), str(true_[i_]) if isinstance(true_[i_], int) else n17(true_[i_]))
+            if k == "m":
+                for (B, H) in sc.rng.sample(d.get("BH", []), len(d.get("BH", []))):
+                    sc.cmd(pre + "addbhpoint", q(d["name"]), n17(B), n17(H))
+            elif k == "h":
+                for (T, K) in d.get("TK", []):
+                    sc.cmd(pre + "addtkpoint", q(d["name"]), n17(T), n17(K))
+            continue
         if k == "m":
             sc.cmd(pre + "addmaterial", q(d["name"]), n17(d.get("Mu_x", 1.0)), n17(d.get("Mu_y", 1.0)), n17(d.get("H_c", 0.0)), n17(d.get("J_re", 0.0)),
                    n17(d.get("Sigma", 0.0)), n17(d.get("d_lam", 0.0)), n17(d.get("Phi_h", 0.0)), n17(d.get("LamFill", 1.0)), str(d.get("LamType", 0)),
@@ -245,6 +275,9 @@ def main(argv):
                     if p.ptype != "planar" and p.units == "microns":
                         p.units = "millimeters"       # axisymmetric magnetics in micrometres: known finding of C10 (NaN potentials), not a Lua matter
                     for m in p.blockprops:
+                        # wire data (only used by the wire lamination types, but part of the material the commands describe)
+                        m.setdefault("WireD", rng.choice([0.0, 0.25, 1.2]))
+                        m.setdefault("NStrands", rng.choice([0, 7]))
                         m.setdefault("Phi_hx", m.get("Phi_h", 0.0))
                         m.setdefault("Phi_hy", m.get("Phi_h", 0.0))
                         if rng.random() < 0.25 and "BH" not in m and m.get("Mu_x", 1.0) > 1 and not harmonic_m:
